@@ -192,6 +192,51 @@ def body_bypass(env):
         env.eq('interior + bypass flows = assembly flow', r.int_flow_rate + _sum(r.byp_flow_rate), r.total_flow_rate, tol=1e-9)
 
 
+def body_calculate(env):
+    """The whole RoddedRegion.calculate (duct walls, interior, bypass dispatch) for 1-3 ducts: runs
+    without exception and the coolant enthalpy rise of interior + bypass equals the tallies."""
+    n, nduct = env.params['n_ring'], env.params['n_duct']
+    with env.patch(MODS):
+        r = SR.sym_rodded(env, n, nduct, stagnant=env.params.get('stagnant', False))
+        r._update_coolant_int_params = lambda *a, **k: None
+        r._update_coolant_byp_params = lambda *a, **k: None
+        env.stub('correlated-parameter updates at the end of the step are no-ops (they do not enter this step)')
+        sc = r.subchannel
+        nsc, nd = sc.n_sc['coolant']['total'], sc.n_sc['duct']['total']
+        dz = env.pos('dz', hi=1)
+        qp = _vec(env, 'q_pin', r.n_pin, lo=0, hi=1e6, lo_strict=False)
+        t_gap = _vec(env, 'Tgap', nd, lo=200, hi=3000)
+        h_gap = _vec(env, 'htc_gap', 2, lo=0, hi=1e7)
+        import copy as _copy
+        # reference: the same sequence of sub-steps called directly on a copy of the state
+        ref = _copy.copy(r)
+        ref.temp = {k: v.copy() for k, v in r.temp.items()}
+        ref.ebal = {k: (v.copy() if hasattr(v, 'copy') else v) for k, v in r.ebal.items()}
+        ref._calc_duct_temp(None, t_gap, h_gap, False)
+        dT_ref = ref._calc_coolant_int_temp(dz, qp, None, True)
+        dB_ref = None
+        if nduct > 1:
+            dB_ref = (ref._calc_coolant_byp_temp_stagnant(dz, True) if env.params.get('stagnant', False)
+                      else ref._calc_coolant_byp_temp(dz, True))
+        T0 = r.temp['coolant_int'].copy()
+        B0 = r.temp['coolant_byp'].copy() if nduct > 1 else None
+        try:
+            r.calculate(dz, {'pins': qp, 'cool': None, 'duct': None}, t_gap, h_gap, False, True)
+        except (ValueError, TypeError, IndexError, KeyError) as ex:
+            env.fail('RoddedRegion.calculate runs for %d ducts' % nduct, why=repr(ex)[:200], key='calculate_raises')
+            env.stop()
+        for i in range(nsc):
+            env.eq('calculate(): interior cell %d advanced by the interior energy equation' % i,
+                   r.temp['coolant_int'][i], T0[i] + dT_ref[i], tol=1e-10)
+        if nduct > 1:
+            for i in range(r.n_bypass):
+                for c in range(nd):
+                    env.eq('calculate(): bypass %d cell %d advanced by the %s bypass equation' % (
+                        i, c, 'stagnant' if env.params.get('stagnant', False) else 'flowing'),
+                        r.temp['coolant_byp'][i, c], B0[i, c] + dB_ref[i, c], tol=1e-10)
+        env.eq('calculate(): same power tally', r.ebal['power'], ref.ebal['power'], tol=1e-10)
+
+
 def body_lowfid(env):
     model = env.params['model']
     adiabatic = env.params['adiabatic']
@@ -314,6 +359,11 @@ def instances(tier):
             for conv in (False, True):
                 inst.append(dict(label='bypass[rings=%d,ducts=%d,conv_approx=%s]' % (n, nduct, conv), body=body_bypass,
                                  params={'n_ring': n, 'n_duct': nduct, 'conv_approx': conv}, timeout_ms=180000))
+    for nduct in (1, 2, 3):
+        inst.append(dict(label='calculate[rings=2,ducts=%d]' % nduct, body=body_calculate, params={'n_ring': 2, 'n_duct': nduct},
+                         timeout_ms=180000))
+    inst.append(dict(label='calculate[rings=2,ducts=2,stagnant bypass]', body=body_calculate,
+                     params={'n_ring': 2, 'n_duct': 2, 'stagnant': True}, timeout_ms=180000))
     for model in ('simple', '6node'):
         for conv in (False, True):
             for adiabatic in (False, True):
